@@ -64,13 +64,18 @@ class Speaker(metaclass=ABCMeta):
 
         orb.event = None
         results = []
+        # Events found between two samples are given in the order of the iteration
+        backward = any(
+            listener.prev is not None and orb.date < listener.prev.date
+            for listener in listeners
+        )
         for listener in listeners:
             if listener.check(orb):
                 results.append(self._bisect(listener.prev, orb, listener))
 
             # Saving of the current value for the next iteration
             listener.prev = orb
-        return sorted(results, key=lambda x: x.date)
+        return sorted(results, key=lambda x: x.date, reverse=backward)
 
     def _bisect(self, begin, end, listener):
         """This method search for the zero-crossing of the watched parameter
@@ -133,6 +138,10 @@ class Listener(metaclass=ABCMeta):
         """Clear the state of the listener, in order to make a new iteration"""
         self.prev = None
 
+    def _forward(self, orb):
+        """False when the iteration goes backward in time (negative step)"""
+        return self.prev is None or orb.date >= self.prev.date
+
 
 class Event:
     """An instance of this class, or its subclass, is added as attribute to the Orbit
@@ -181,12 +190,13 @@ class LightListener(Listener):
         self.frame = frame
 
     def info(self, orb):
+        # ``orb`` is the first point found on the far side of the transition, in the
+        # direction of the iteration. Entry and exit are meant in the direction of time
+        entry = (self(orb) <= 0) == self._forward(orb)
         if self.type == self.UMBRA:
-            return LightEvent(self, "Umbra entry" if self(orb) <= 0 else "Umbra exit")
+            return LightEvent(self, "Umbra entry" if entry else "Umbra exit")
         else:
-            return LightEvent(
-                self, "Penumbra entry" if self(orb) <= 0 else "Penumbra exit"
-            )
+            return LightEvent(self, "Penumbra entry" if entry else "Penumbra exit")
 
     def __call__(self, orb):
         """
@@ -334,9 +344,9 @@ class ApsideListener(Listener):
         self.frame = frame
 
     def info(self, orb):
-        return ApsideEvent(
-            self, "Periapsis" if self(orb) > self(self.prev) else "Apoapsis"
-        )
+        # Radial velocity increasing with time : periapsis
+        increasing = (self(orb) > self(self.prev)) == self._forward(orb)
+        return ApsideEvent(self, "Periapsis" if increasing else "Apoapsis")
 
     def __call__(self, orb):
         orb = orb.copy(form="spherical", frame=self.frame)
@@ -464,7 +474,8 @@ class StationMaskListener(StationSignalListener):
         self.station = station
 
     def info(self, orb):
-        return self.event(self, "AOS" if self(orb) > self(self.prev) else "LOS")
+        rising = (self(orb) > self(self.prev)) == self._forward(orb)
+        return self.event(self, "AOS" if rising else "LOS")
 
     def check(self, orb):
         # Override to disable the computation when the object is not
